@@ -485,6 +485,30 @@ func parseGet(text string) (View, string, []string) {
 	return v, replay.String(), anomalies
 }
 
+// checkPrivateFromHex compares device.NoisePrivateKey.FromHex (the other hex
+// parser of private keys; UAPI itself uses FromMaybeZeroHex) with a reference:
+// exactly 64 hex digits, always clamped (also the all-zero key).
+func checkPrivateFromHex(val string) string {
+	var k device.NoisePrivateKey
+	err := k.FromHex(val)
+	b, derr := hex.DecodeString(val)
+	if derr != nil || len(b) != 32 {
+		if err == nil {
+			return "NoisePrivateKey.FromHex-accepts-malformed"
+		}
+		return ""
+	}
+	b[0] &= 248
+	b[31] = (b[31] & 127) | 64
+	if err != nil {
+		return "NoisePrivateKey.FromHex-rejects-wellformed"
+	}
+	if hex.EncodeToString(k[:]) != hex.EncodeToString(b) {
+		return "NoisePrivateKey.FromHex-not-clamped"
+	}
+	return ""
+}
+
 func hangWhat(text string) string {
 	for _, k := range []string{"private_key", "listen_port", "fwmark", "replace_peers", "remove", "update_only"} {
 		if strings.Contains(text, k+"=") {
@@ -562,6 +586,15 @@ func runCase(c *Case) {
 			c.Ops = c.Ops[:i]
 			closed = true // the device is stuck; leak it
 			return
+		}
+		if op.Kind == "set" || op.Kind == "" {
+			for _, l := range scanLines(op.Text) {
+				if v, okv := strings.CutPrefix(l, "private_key="); okv && len(l) < maxToken {
+					if a := checkPrivateFromHex(v); a != "" {
+						c.Anomaly = append(c.Anomaly, fmt.Sprintf("op%d %s", i, a))
+					}
+				}
+			}
 		}
 		var text string
 		var gerr error
@@ -874,6 +907,20 @@ func newPool(r *rand.Rand) *pool {
 	for i := 0; i < 3; i++ {
 		p.privs = append(p.privs, randHex(r, 32))
 	}
+	// value class: a private key that is certainly NOT clamped (low 3 bits of byte 0 set, bit 7 of
+	// byte 31 set, bit 6 clear); get must echo the clamped form and the own public key derives from it
+	{
+		b := make([]byte, 32)
+		r.Read(b)
+		b[0] |= 7
+		b[31] = (b[31] | 0x80) &^ 0x40
+		p.privs = append(p.privs, hex.EncodeToString(b))
+	}
+	// value class: keys that differ from the all-zero key only in bits clamping clears, and the
+	// smallest clamped key itself
+	if r.Intn(4) == 0 {
+		p.privs = append(p.privs, pick(r, nearZeroPrivs))
+	}
 	for i := 0; i < 4; i++ {
 		p.pubs = append(p.pubs, randHex(r, 32))
 	}
@@ -889,6 +936,12 @@ func newPool(r *rand.Rand) *pool {
 }
 
 func pick(r *rand.Rand, l []string) string { return l[r.Intn(len(l))] }
+
+// not zero for FromMaybeZeroHex (so they are clamped, all of them to 00..0040 except the last),
+// although only bits that clamping clears are set
+var nearZeroPrivs = []string{
+	"01" + strings.Repeat("00", 31), "07" + strings.Repeat("00", 31), strings.Repeat("00", 31) + "80",
+	"05" + strings.Repeat("00", 30) + "80", strings.Repeat("00", 31) + "40", strings.Repeat("ff", 32)}
 
 var prefixes = []string{"10.0.0.0/8", "10.0.0.0/24", "10.0.0.5/24", "10.0.0.5/32", "10.0.0.4/31", "0.0.0.0/0", "192.168.1.77/16",
 	"255.255.255.255/32", "128.0.0.0/1", "::/0", "fd00::/64", "fd00::1/64", "fd00::1/128", "::ffff:1.2.3.4/128", "::ffff:1.2.3.4/100",
@@ -1210,6 +1263,13 @@ func directed() []Case {
 	// candidate defect: a device whose private key was cleared answers to pub(0); a peer with the
 	// all-zero public key is then a real peer, but a fresh device (no key at all) ignores that key.
 	add("d-roundtrip-zero-pubkey", set("private_key="+priv1), set("private_key="+zeroKey), set("public_key="+zeroKey, "allowed_ip=10.0.0.0/8"))
+	// clamping: the stored/echoed private key and the own public key are those of the CLAMPED key; a key
+	// that is zero only after clamping is not "remove the key"; equal-after-clamping keys are the same key
+	c40 := clampedPub(nearZeroPrivs[0]) // public key of 00..0040
+	add("d-private-key-clamping", set("private_key="+nearZeroPrivs[0], "public_key="+c40, "allowed_ip=10.0.0.0/8"),
+		set("private_key="+nearZeroPrivs[2], "public_key="+pA), set("private_key="+nearZeroPrivs[4]), set("private_key="+zeroKey, "public_key="+c40),
+		set("private_key="+nearZeroPrivs[5]), set("private_key=f8"+strings.Repeat("ff", 30)+"7f", "public_key="+clampedPub(nearZeroPrivs[5])),
+		set("private_key="+nearZeroPrivs[3]), set("private_key="+nearZeroPrivs[1]))
 	// status per operation: valid, invalid, valid ... (on a shared connection each answer must be its own)
 	add("d-status-per-operation", set("listen_port=1"), set("listen_port=65536"), set("listen_port=2"), set("listen_port"),
 		set("public_key="+pA, "allowed_ip=10.0.0.0/8"), set("public_key="+pA, "endpoint=bad", "allowed_ip=10.1.0.0/16"), set("fwmark=1"),
